@@ -210,6 +210,7 @@ template <class PP> struct PPCmds {
       return true;
     }
     if (c == "pp.copy") { std::string n = vm.next(); PP &s = get(vm.next()); reg[n].reset(new PP(s)); return true; }
+    if (c == "pp.movector") { std::string n = vm.next(); PP &s = get(vm.next()); PP tmp(s); reg[n].reset(new PP(std::move(tmp))); return true; }   // move construction from a (warm) temporary copy
     if (c == "pp.assign") { std::string n = vm.next(); PP &s = get(vm.next()); get(n) = s; return true; }
     if (c == "pp.moveassign") { std::string n = vm.next(); PP &s = get(vm.next()); get(n) = PP(s); return true; }          // assignment from an rvalue
     if (c == "pp.assignderiv") { std::string n = vm.next(); PP &s = get(vm.next()); int k = vm.nextInt(); get(n) = s.derivative(k); return true; }
